@@ -117,7 +117,11 @@ class update_stub(ContractBase):
         return {'called-once': c.cur.g('ghost.update_calls') == c.old.g('ghost.update_calls') + 1,
                 'pending-only-grows': Implies(todo(c.old, n)[t], todo(c.cur, n)[t]),
                 'queue-keeps-what-is-pending-or-executing': Implies(And(que(c.old)[n], Or(todo(c.old, n) != TGTS.empty(), doing(c.old, n) != TGTS.empty())), que(c.cur)[n]),
-                'queue-has-no-idle-entry': Implies(que(c.cur)[n], Or(todo(c.cur, n) != TGTS.empty(), doing(c.cur, n) != TGTS.empty()))}
+                'queue-has-no-idle-entry': Implies(que(c.cur)[n], Or(todo(c.cur, n) != TGTS.empty(), doing(c.cur, n) != TGTS.empty())),
+                # (organize: nothing queued that has work afterwards is dropped - proved in c02_organize.py)
+                'queued-entries-with-work-stay': Implies(And(que(c.old)[n], Or(todo(c.cur, n) != TGTS.empty(), doing(c.cur, n) != TGTS.empty())), que(c.cur)[n]),
+                'whoever-gained-pending-work-is-queued': Implies(And(todo(c.cur, n)[t], Not(todo(c.old, n)[t])), que(c.cur)[n]),
+                'executing-untouched': doing(c.cur, n)[t] == doing(c.old, n)[t]}
 
 
 def _res_unit(ex, e):
@@ -125,11 +129,11 @@ def _res_unit(ex, e):
     return V(unit_name(MSG.get(m.t, 'jobid'), MSG.get(m.t, 'incarnation')), ATOM)
 
 
-@contract(W, 'dawgie/pl/farm.py', 'Hand._res', props=['C03', 'C04', 'C05'])
+@contract(W, 'dawgie/pl/farm.py', 'Hand._res', props=['C01', 'C02', 'C03', 'C04', 'C05'])
 class hand_res(ContractBase):
     params = {'msg': MSG}
     modifies = c11_farm.RES_MODIFIES
-    assumes = [lambda c: [c01_release.choice_axiom(c.old), c01_release.J3(c.old)], one_node_per_tag_among_children]
+    assumes = [lambda c: [c01_release.choice_axiom(c.old), c01_release.J3(c.old)] + c01_release.choice_tree(c.old), one_node_per_tag_among_children]
     abstract = {"msg.jobid + '[' + (msg.incarnation if msg.incarnation else '__all__') + ']'": _res_unit, 'any(msg.values)': BOOL}
 
     def requires(c):
@@ -159,17 +163,42 @@ class hand_res(ContractBase):
         e = LE.arr(ch1)[LE.len(ch0)]
         status = If(OB.is_none(suc), STATE.const('invalid'), If(OB.val(suc), STATE.const('success'), STATE.const('failure')))
         upd = c.cur.g('ghost.update_calls') - c.old.g('ghost.update_calls')
+        found = Or(queued, c01_release.find._in_tree(hand_res._fc(c)))
         return {'crew.unit-no-longer-busy': And(Not(c.cur.g('dawgie.pl.farm._busy')[name]),
                                                 Implies(u != name, c.cur.g('dawgie.pl.farm._busy')[u] == c.old.g('dawgie.pl.farm._busy')[u])),
-                'applied.completion-recorded-once': Implies(queued, And(LE.len(ch1) == LE.len(ch0) + 1, ENTRY.get(e, 'status') == state_name(status),
+                'applied.completion-recorded-once': Implies(found, And(LE.len(ch1) == LE.len(ch0) + 1, ENTRY.get(e, 'status') == state_name(status),
                                                                         ENTRY.get(e, 'target') == inc, ENTRY.get(e, 'task') == jobid,
                                                                         ENTRY.get(e, 'runid') == MSG.get(m, 'runid'))),
-                'applied.report-propagated-once-on-success-only': Implies(queued, upd == If(success, 1, 0)),
+                'applied.report-propagated-once-on-success-only': Implies(found, upd == If(success, 1, 0)),
                 'failure.no-dependent-is-triggered': Implies(Not(success), Implies(todo(c.cur, n)[t], todo(c.old, n)[t])),
                 'failure.other-targets-untouched': Implies(And(Not(success), t != inc, inc != ALL),
                                                            And(todo(c.cur, n)[t] == todo(c.old, n)[t], doing(c.cur, n)[t] == doing(c.old, n)[t])),
+                # a failed or invalid unit is withdrawn from its job and from everything below it, whether or not the job is still queued
+                'failure.withdrawn-from-the-job-and-its-dependents': Implies(And(Not(success), found), Implies(reach(hand_res._job(c), n),
+                                                                             And(Not(todo(c.cur, n)[inc]), Not(doing(c.cur, n)[inc]), Not(do_(c.cur, n)[inc])))),
+                # only idle entries leave the queue: whoever still has something pending or executing stays queued
+                'entries-with-work-stay-queued': Implies(And(que(c.old)[n], Or(todo(c.cur, n) != TGTS.empty(), doing(c.cur, n) != TGTS.empty())), que(c.cur)[n]),
                 # J2 (no idle queue entry) is preserved by a reply
                 'idle-means-idle': Implies(And(hand_res.J2(c.old), queued, que(c.cur)[n]), Or(todo(c.cur, n) != TGTS.empty(), doing(c.cur, n) != TGTS.empty()))}
+
+    @staticmethod
+    def _fc(c):
+        """the view schedule.find has of this call: its `job` argument is the reply's job id"""
+        class _V:
+            pass
+        v = _V()
+        v.old, v.cur = c.old, c.cur
+        jobid = Opt(ATOM).val(MSG.get(c['msg'], 'jobid'))
+        v.__class__.__getitem__ = lambda self, k: jobid
+        return v
+
+    @staticmethod
+    def _job(c):
+        """the node schedule.find returned (the local `job`)"""
+        try:
+            return c.loc('job')
+        except KeyError:        # the path on which find raised IndexError: `job` was never bound (and `found` is false there)
+            return z3.Const('no_job_found', NODE.sort())
 
     def _inv_busy(c):
         u = c.sk('u', ATOM)
